@@ -1,8 +1,9 @@
-(* C08: the three clauses together -- the model's own step satisfies C08.step_spec for every
-   command, world, environment and users map, under the collected hypotheses. *)
+(* C08: the clauses together, and the statements with the derived hypotheses replaced by their
+   syntactic sufficient conditions (Proofs/C08ShallowP.v, Proofs/C08SourcesP.v). *)
 From LC Require Import Lib.Bytes Lib.Lex Lib.Fields Lib.PathM Gen.Consts
   Model.MountInfo Model.FsTree Model.Kernel Model.Layers Cases.Verdict Cases.LC Cases.C08
-  Proofs.C08DocP Proofs.C08P Proofs.C08ProbeP Proofs.C08MountedP.
+  Proofs.C08DocP Proofs.C08P Proofs.C08ProbeP Proofs.C08MountedP Proofs.C08ShallowP
+  Proofs.SourcesP Proofs.C08SourcesP Proofs.C08ExamplesP.
 Open Scope N_scope.
 Import LC LCS.
 
@@ -19,3 +20,32 @@ Proof.
   - apply own_mounts_never_error.
   - now apply state_is_documented_partial.
 Qed.
+
+(* (c) without the model's fuel in the hypotheses *)
+Theorem mounted_means_complete_shallow cfg w e um :
+  wf_cfg cfg = true -> wf_table (ks_tab (wo_ks w)) = true -> sources_shallow cfg w = true ->
+  mounted_complete_spec cfg w (view_of_model cfg w e CProbe um) = true.
+Proof. intros H1 H2 H3. apply mounted_means_complete; [exact H2|now apply dir_test_agrees_of_shallow]. Qed.
+
+(* (b) with syntactic hypotheses where there are any: what remains semantic is
+   [own_mounts_shown] (the mounts on import mountpoints are the configured ones, of a kind
+   GetMountSources reconstructs) and [no_foreign_on_missing_source] *)
+Theorem state_is_documented_syntactic cfg w e um :
+  wf_cfg cfg = true -> cfg_dirs_ok cfg = true ->
+  wf_table (ks_tab (wo_ks w)) = true -> regular_table (ks_tab (wo_ks w)) = true ->
+  layer_names_distinct cfg w = true -> sources_shallow cfg w = true ->
+  own_mounts_shown cfg w = true -> no_foreign_on_missing_source cfg w = true ->
+  C08.step_spec cfg w (view_of_model cfg w e CProbe um) = true.
+Proof.
+  intros H1 H2 H3 H4 H5 H6 H7 H8. apply state_is_documented_partial; try assumption.
+  - now apply sources_agree_of_shown.
+  - now apply dir_test_agrees_of_shallow.
+Qed.
+
+Example C08_syntactic_hyps_nontrivial :
+  wf_cfg ex_cfg = true /\ cfg_dirs_ok ex_cfg = true
+  /\ wf_table (ks_tab (wo_ks ex_w1)) = true /\ regular_table (ks_tab (wo_ks ex_w1)) = true
+  /\ layer_names_distinct ex_cfg ex_w1 = true /\ sources_shallow ex_cfg ex_w1 = true
+  /\ own_mounts_shown ex_cfg ex_w1 = true /\ no_foreign_on_missing_source ex_cfg ex_w1 = true
+  /\ sources_shallow ex_cfg w_deep = false.
+Proof. vm_compute. repeat split; reflexivity. Qed.
